@@ -89,6 +89,12 @@ def run(tier, seed, ev):
     lha, jobs = built
     v, good = run_jobs("C19", lha, jobs, sc, ev)
     viols += [x for x in v]
+    # which rows are selected: the real matcher against Glob.tla, exhaustively over short patterns, through the list commands
+    import maincommon as MC
+    gev = MC.glob_list_events(rng, sc, lha, V.build_driver("header_drv", "san"), tier, ev)
+    v2, g2 = MC.validate(gev, sc, ev, "C19")
+    viols += v2
+    good += g2
     ev.add("traces_validated_against_impl", good)
     ev.set("listings", len(jobs))
     ev.sample({"mode": jobs[0][2], "quiet": jobs[0][3], "filters": [f.decode("latin1") for f in jobs[0][4]], "members": len(jobs[0][1])})
